@@ -208,7 +208,8 @@ def sizeFieldOf (f : StructField) : SizeField := ⟨f.fieldName, f.containsOpaqu
 theorem emitStructField_ok {a : Ast} {P : Plans} (hP : PlansFor a P) (f : StructField) (hf : fieldOk a f = true)
     (sfd : StructFieldDec) (he : emitStructField a f = .ok sfd) :
     sfd.resolved P = true ∧ sizeFieldMatches sfd (sizeFieldOf f) = true := by
-  simp only [fieldOk] at hf
+  simp only [fieldOk, Bool.and_eq_true] at hf
+  replace hf := hf.2
   simp only [emitStructField] at he
   by_cases hopt : f.isOptional = true
   · simp only [hopt, if_true] at hf he
@@ -647,7 +648,7 @@ theorem keysOk_facts {a : Ast} (h : keysOk a = true) :
 theorem plansFor_of_supported {a : Ast} {m : Module} (hs : Supported a = true) (hg : generateModule a = .ok m) :
     PlansFor a m.plans := by
   simp only [Supported, Bool.and_eq_true] at hs
-  obtain ⟨hkeys, _⟩ := hs
+  obtain ⟨⟨hkeys, _⟩, _⟩ := hs
   obtain ⟨hkn, hsafe, _⟩ := keysOk_facts hkeys
   obtain ⟨_, _, h2, _⟩ := generateModule_ok hg
   have hfind := find_impl_of_types a a.types m.fromRefMut h2 hkn
@@ -670,7 +671,7 @@ theorem plansFor_of_supported {a : Ast} {m : Module} (hs : Supported a = true) (
     obtain ⟨i, hi, he⟩ := hfind n (.enum e) hb
     simp only [emitImpl] at he
     cases he
-    refine ⟨hk.symm, ⟨e.name, a.isGeneric e.name, .enum (e.variants.map fun v => (v.value.display, v.name))⟩, _, ?_, rfl⟩
+    refine ⟨hk.symm, ⟨e.name, a.isGeneric e.name, .enum (e.variants.map fun v => (v.value, v.name))⟩, _, ?_, rfl⟩
     simp only [Module.plans, Plans.findImpl]
     exact hi
 
@@ -679,7 +680,7 @@ theorem supported_plans {a : Ast} {m : Module} (hs : Supported a = true) (hg : g
     m.plans.Ok = true ∧ m.plans.SizeExact' = true := by
   have hP := plansFor_of_supported hs hg
   simp only [Supported, Bool.and_eq_true] at hs
-  obtain ⟨hkeys, htypes⟩ := hs
+  obtain ⟨⟨hkeys, htypes⟩, _⟩ := hs
   obtain ⟨hkn, _, hsorted⟩ := keysOk_facts hkeys
   obtain ⟨_, _, h2, h3⟩ := generateModule_ok hg
   -- every impl comes from a declaration of the index, whose size impl is the one `findSize` returns
